@@ -629,7 +629,7 @@ def _shift_wiring(chk, m):
 
             tw = TermWorld(r.module)
             x = Var("x")
-            for by, fill, want in ((2, None, "LAG"), (-3, None, "LEAD"), (0, None, "LAG"), (1, 7, "LAG"), (-1, 7, "LEAD")):
+            for by, fill, want in ((2, None, "LAG"), (-3, None, "LEAD"), (0, None, "LAG"), (1, 7, "LAG"), (-1, 7, "LEAD"), (1, 0, "LAG"), (-2, "", "LEAD"), (1, False, "LAG")):
                 try:
                     out = tw.run(r.func, [x, by, fill])
                 except SymbolicBranch as sb:
